@@ -222,6 +222,7 @@ func (t *tables) lookup(a absString, dn string) (d, impl decision, err error) {
 
 // observed is what DecodeAddress answered, in the vocabulary of the decisions.
 type observed struct {
+	want     decision // the specification's (property layer) decision, filled by checkDecode
 	panicked string
 	d       decision
 	addr    address.Address
@@ -395,6 +396,7 @@ func (t *tables) checkDecode(c *vrun.Ctx, s, dn, shape, what string, replay any)
 		return a, observed{}, fmt.Errorf("%s %q: %w", what, s, err)
 	}
 	o := t.observe(s, dn)
+	o.want = d
 	c.AddEval(1)
 	if o.panicked != "" {
 		c.Violation("decode:"+shape+":panic", fmt.Sprintf("DecodeAddress(%q, %s) [%s] panics: %s", s, dn, what, o.panicked),
